@@ -31,6 +31,10 @@ RULE = ("forms of 0-6 fields/files (binary contents, empty values, repeated name
         "(quoted-string or RFC 2231 parameters) or urlencoded; every single-byte mutation of small bodies; arbitrary bodies and content "
         "types; limits at count-1/count/count+1; non-trivial = a form with >=1 part parsed successfully, or a mutated body")
 EXHAUSTIVE = {"quick": False, "thorough": False}
+CLAUSE_CAVEATS = [
+    "the RFC 2231 (name*=charset''…) form of the lossless clause is tie-only; multipart_roundtrip is for the quoted-string form",
+    "only_input_error holds by construction of the model's catch-all; the clause is carried by the tie's 'no other exception type' oracle",
+]
 CLAUSES = {
     "multipart with a boundary occurring nowhere in the content is recovered exactly": "multipart_roundtrip (side condition: boundary without LF — "
         "multipart_roundtrip_refuted shows the clause is false as written for a boundary containing CR LF, which no Content-Type header can carry); "
